@@ -14,7 +14,7 @@ RULE = ("bits half: one case = (value, width n in 1..20, bitlength in {3,8,16}) 
 
 def main():
     tier = common.tier()
-    nshards, n = (8, 250) if tier == "quick" else (32, 4000)
+    nshards, n = (16, 800) if tier == "quick" else (32, 8000)
     jobs = [dict(seed="%d/%s/%d" % (common.seed(), PROP, s), n=n) for s in range(nshards)]
     R = common.Run(PROP, "exploration", RULE)
     for job, res, err in shard.run_jobs("vf.checks.C16", "worker", jobs, timeout=3600, nproc=16):
